@@ -394,7 +394,8 @@ def osSendStart (cfg : Cfg) (s : St) (t : Nat) (h : HName) (hd : Handle) (v : Va
   2: committed — write the value, swap →SENT; 3: `shared.send` returned — the consumed `Sender` is dropped;
 * spsc sender `close` (10) / `drop` (11): `close_internal` stores `producer_dropped` first (done at the
   start step) and decrements `sender_count` in a second step (bounded_sync.rs:51-54, bounded_async.rs:37-40);
-  the async batch receives test the flag, everything else the count. -/
+  every receive form tests the count (the async batch receives tested the flag until fix 23f212c, finding N6),
+  so the state between the two steps is indistinguishable from "sender alive" for the receiver. -/
 def stgStep (fl : Flavour) (s : St) (t k : Nat) (h : HName) (sent rest : List Val) : Option (St × P) :=
   if k = 1 ∧ fl.fam = .os then
     if s.rd then some (teardownIfLast (osDecSenders (({ s with osw := false } : St).giveBack rest)), .fin { tag := .closed, sent := sent, back := rest })
@@ -444,8 +445,10 @@ def startSend (fl : Flavour) (cfg : Cfg) (s : St) (t : Nat) (f : Form) (h : HNam
 
 /-! ## receive forms -/
 
-def emptyOutcome (fl : Flavour) (s : St) (f : Form) (hd : Handle) : Option (St × P) :=
-  let gone := sendersGone s || (fl.fam == .sb && hd.isAsync && (f == .recvBatch || f == .recvBatchMut) && s.pd)   -- bounded_async.rs:728 tests producer_dropped
+def emptyOutcome (fl : Flavour) (s : St) (f : Form) (_hd : Handle) : Option (St × P) :=
+  -- every receive form tests the sender COUNT (`!senders_alive()`); since fix 23f212c this includes the spsc async
+  -- batch receives (bounded_async.rs:728 used to test `producer_dropped`, finding N6): no receive observes `pd`
+  let gone := sendersGone s
   if gone then some (mbFlush fl s, .fin { tag := .disconnected })
   else match f with
     | .tryRecv | .tryRecvBatch | .tryRecvBatchMut => some (mbFlush fl s, .fin { tag := .empty })
